@@ -214,6 +214,15 @@ class C06:
                 else:
                     mut = main[:i] + [["s", "1x", "dq"]] + main[i + 1:]
                 subs.append({"main": mut, "files": files})
+            # an include of a file that does not exist: reported at the include statement of the includer
+            if has_inc:
+                miss = [["s", "include", "bare"], ["p", "("], ["s", "c06_missing.conf", "dq"], ["p", ")"], ["w", "\n"]]
+                subs.append({"main": main + miss, "files": files})
+                subs.append({"main": miss + main, "files": files})
+                for name in list(files)[:1]:
+                    mf = dict(files)
+                    mf[name] = files[name] + miss
+                    subs.append({"main": main, "files": mf})
             # errors inside included files
             for name in list(files)[:2]:
                 body = files[name]
